@@ -7,7 +7,8 @@ import itertools
 RULE = ("exhaustive: every scripted chain over {Accept,Neutral,Reject} of length <= 4 on one appender x "
         "fails/succeeds x 5 record levels x 3 node levels; every threshold level x record level inside a "
         "chain, also with the crate's ThresholdFilter attached directly (not behind the recording wrapper) at every "
-        "position among scripted filters; then random fan-outs of 1-4 appenders (chains <= 5 incl. threshold filters, random "
+        "position among scripted filters, and for a third of the chains on an appender supplied as a log::Log value "
+        "whose own enabled() refuses everything (blanket Append impl); then random fan-outs of 1-4 appenders (chains <= 5 incl. threshold filters, random "
         "failing flags, attachment lists with repeats); then HISTORIES: random call trees (depth <= 3, <= 2 "
         "nested calls per call, 1-3 top-level calls) over 1-3 appenders and 1-3 nodes in which an appender "
         "logs further records through the same Logger from inside append() (to other appenders and to "
@@ -31,9 +32,11 @@ def cases(rng, tier):
     for n in range(0, 5):
         for ch in itertools.product((0, 1, 2), repeat=n):
             fs = [[0, r] for r in ch]
-            for fails in (0, 1):
+            for fails in (0, 1, 2):
                 for L in range(1, 6):
                     for nl in (0, 3, 5):
+                        if fails == 2 and (L + nl + n) % 3:
+                            continue
                         out.append([nl, L, [[fails, fs]], [0]])
     for t in range(0, 6):
         for L in range(1, 6):
@@ -58,7 +61,7 @@ def cases(rng, tier):
                     fs.append([rng.choice([1, 1, 2]), rng.below(6)])
                 else:
                     fs.append([0, rng.choice([0, 1, 1, 1, 2])])
-            apps.append([rng.below(2), fs])
+            apps.append([rng.choice([0, 0, 1, 1, 2]), fs])      # 2: supplied as a log::Log whose enabled() says no
         att = [rng.below(na) for _ in range(rng.below(6))]
         out.append([rng.choice([0, 1, 2, 3, 4, 5, 5, 5]), rng.range(1, 5 + 0), apps, att])
     out.extend(_fixed_histories())
@@ -148,8 +151,9 @@ def model_lines(ctx, cases, lines, impl_lines):
     vc = ctx["vc"]
     out = []
     for c, ln in zip(cases, lines):
-        if _raw(c):
-            c = [c[0], c[1], [[f, [[1, x[1]] if x[0] == 2 else x for x in fs]] for f, fs in c[2]], c[3]]
+        if not _is_hist(c) and (_raw(c) or any(f == 2 for f, fs in c[2])):
+            # (a log::Log-backed appender is, for the model, an appender that succeeds)
+            c = [c[0], c[1], [[0 if f == 2 else f, [[1, x[1]] if x[0] == 2 else x for x in fs]] for f, fs in c[2]], c[3]]
             ln = vc.show(c)
         out.append(ln)
     return out
@@ -200,11 +204,11 @@ def describe(c):
     if _is_hist(c):
         return {"mode": "two threads (first call on thread 1, blocked in its first handler call while thread 2 runs the rest)"
                 if c[4] else "one thread, each top-level call under catch_unwind",
-                "appenders": [{"fails": bool(f), "filters": [names[x[1]] if x[0] == 0 else "Threshold(%d)" % x[1] for x in fs]}
+                "appenders": [{"kind": {0: "succeeds", 1: "fails", 2: "log::Log value, enabled()=false"}.get(f, f), "filters": [names[x[1]] if x[0] == 0 else "Threshold(%d)" % x[1] for x in fs]}
                               for f, fs in c[1]],
                 "nodes": [{"level": n[0], "attached": n[1]} for n in c[2]],
                 "top_level_calls (issued_by ignored)": [_dcall(k) for k in c[3]]}
     nl, L, apps, att = c
     return {"node_level": nl, "record_level": L, "attached": att,
-            "appenders": [{"fails": bool(f), "filters": [names[x[1]] if x[0] == 0 else "Threshold(%d)" % x[1] for x in fs]}
+            "appenders": [{"kind": {0: "succeeds", 1: "fails", 2: "log::Log value, enabled()=false"}.get(f, f), "filters": [names[x[1]] if x[0] == 0 else "Threshold(%d)" % x[1] for x in fs]}
                           for f, fs in apps]}
